@@ -945,6 +945,15 @@ fn run_trial(line: &str) {
 		carry = w.c.clone();
 	}
 
+	if param(&head, "probe") == Some("1") {
+		// only report at which steps the crash node had user events to handle
+		let steps: Vec<String> = snaps.iter().enumerate().filter(|(_, s)| !s.events_at_step.is_empty()).map(|(i, _)| i.to_string()).collect();
+		partial(format!("\"probe\":true,\"crash\":{},\"event_steps\":[{}]", x, steps.join(",")));
+		phase("done");
+		std::mem::forget(nodes);
+		return;
+	}
+
 	// ---- what is on disk
 	phase("choose");
 	let j = k.saturating_sub(lag);
